@@ -66,6 +66,12 @@ type SliceV struct {
 	Typ    types.Type
 }
 
+// MapV: a map made in this activation, held in a cell (so that updates are path-sensitive).
+type MapV struct {
+	Cell *Cell
+	Typ  types.Type
+}
+
 type TupleV []Val
 
 type FuncV struct {
